@@ -238,6 +238,8 @@ func c07FailClass(log string) string {
 	case strings.Contains(log, "cannot be bound inside an untyped map") ||
 		strings.Contains(log, "to untyped map: contains reference"):
 		return "call_graph_error_struct_with_references_bound_to_untyped_map"
+	case strings.Contains(log, "map call generates a nested map"):
+		return "call_graph_error_nested_typed_map_call"
 	case strings.Contains(log, "Error computing forking"):
 		return "run_error_computing_forking"
 	case strings.Contains(log, "cannot be parsed as") || strings.Contains(log, "TypeError") || strings.Contains(log, "type error"):
